@@ -12,7 +12,7 @@ open Lean D2V.Drv D2V.Escape D2V.Xml
 
 def chars (ns : List Nat) : List Char := ns.map Char.ofNat
 
-def show (s : List Char) : String :=
+def vis (s : List Char) : String :=
   String.ofList (s.map fun c => if c.toNat < 32 || c.toNat == 127 then '·' else c)
 
 def isInfix (pat : List Char) : List Char → Bool
@@ -24,7 +24,7 @@ def lower (s : List Char) : List Char := s.map Char.toLower
 def slug (s : String) : String := String.ofList (s.toList.map fun c => if c.isAlphanum then c else '_')
 
 /-- names (lower-cased) that mention the canary prefix at all -/
-def suspicious (names : List Name) : List Name := (names.map lower).filter (isInfix ['z', 'q'])
+def suspicious (names : List (List Char)) : List (List Char) := (names.map lower).filter (isInfix ['z', 'q'])
 
 def handleSvg (i o : Json) : Except String Verdict := do
   match getStr o "svg" with
@@ -34,7 +34,7 @@ def handleSvg (i o : Json) : Except String Verdict := do
     let (st, pos) := runPos init cs 0
     match st.mode with
     | .err why =>
-      let ctx := show ((cs.drop (pos - 70)).take (min pos 70 + 30))
+      let ctx := vis ((cs.drop (pos - 70)).take (min pos 70 + 30))
       return .specfalse s!"not-wf:{slug why}" s!"{why} at char {pos}: …{ctx}…"
     | _ =>
       if !accepting st then
@@ -58,9 +58,9 @@ def handleEsc (i o : Json) : Except String Verdict := do
   let s := chars (← getNats i "s")
   let gx := chars (← getNats o "xml")
   let gh := chars (← getNats o "html")
-  if !noMarkup gx then return .specfalse "escape-unsafe" s!"EscapeText output is not markup-free: {show gx}"
-  if escapeText s != gx then return .mismatch "escapeText" s!"model {show (escapeText s)} vs go {show gx}"
-  if escapeHtml s != gh then return .mismatch "escapeHtml" s!"model {show (escapeHtml s)} vs go {show gh}"
+  if !noMarkup gx then return .specfalse "escape-unsafe" s!"EscapeText output is not markup-free: {vis gx}"
+  if escapeText s != gx then return .mismatch "escapeText" s!"model {vis (escapeText s)} vs go {vis gx}"
+  if escapeHtml s != gh then return .mismatch "escapeHtml" s!"model {vis (escapeHtml s)} vs go {vis gh}"
   return .ok
 
 open D2V.Gradient in
@@ -68,13 +68,13 @@ def handleGrad (i o : Json) : Except String Verdict := do
   let css := chars (← getNats i "css")
   let goErr := (getBool o "err").toOption.getD false
   let isgrad ← getBool o "isgrad"
-  if isGradient css != isgrad then return .mismatch "isGradient" s!"model {isGradient css} vs go {isgrad} on {show css}"
+  if isGradient css != isgrad then return .mismatch "isGradient" s!"model {isGradient css} vs go {isgrad} on {vis css}"
   match parseGradient css with
   | none =>
-    if !goErr then return .mismatch "gradient-parse" s!"model rejects, go accepts {show css}"
+    if !goErr then return .mismatch "gradient-parse" s!"model rejects, go accepts {vis css}"
     return .ok
   | some g =>
-    if goErr then return .mismatch "gradient-parse" s!"model accepts, go rejects {show css}"
+    if goErr then return .mismatch "gradient-parse" s!"model accepts, go rejects {vis css}"
     let ty ← getStr o "type"
     let dir := chars (← getNats o "dir")
     let stopsJ ← getArr o "stops"
@@ -88,26 +88,26 @@ def handleGrad (i o : Json) : Except String Verdict := do
         let qn ← q.toList.mapM fun x => (x.getNat? : Except String Nat)
         pure (Stop.mk (chars cn) (chars qn))
       | _ => throw "bad stop"
-    if g.type.toList != ty.toList.take g.type.length ∨ ty.length != g.type.length then
+    if g.type != ty then
       return .mismatch "gradient-type" s!"model {g.type} vs go {ty}"
-    if g.direction != dir then return .mismatch "gradient-direction" s!"model {show g.direction} vs go {show dir}"
-    if g.stops != stops then return .mismatch "gradient-stops" s!"stops differ on {show css}"
+    if g.direction != dir then return .mismatch "gradient-direction" s!"model {vis g.direction} vs go {vis dir}"
+    if g.stops != stops then return .mismatch "gradient-stops" s!"stops differ on {vis css}"
     let id ← getStr o "id"
     let svg := chars (← getNats o "svg")
     -- Spec on the emitted fragment: well-formed, exactly the gradient element with one <stop> per colour stop,
     -- only the expected attributes
     let (st, pos) := runPos init svg 0
     match st.mode with
-    | .err why => return .specfalse "gradient-not-wf" s!"{why} at char {pos} of {show svg}"
+    | .err why => return .specfalse "gradient-not-wf" s!"{why} at char {pos} of {vis svg}"
     | _ =>
-      if !accepting st then return .specfalse "gradient-not-wf" s!"fragment incomplete: {show svg}"
+      if !accepting st then return .specfalse "gradient-not-wf" s!"fragment incomplete: {vis svg}"
       let evs := st.evs.reverse
       match shapeOk g evs with
-      | some why => return .specfalse "gradient-inject" s!"{why}: {show svg}"
+      | some why => return .specfalse "gradient-inject" s!"{why}: {vis svg}"
       | none =>
         -- tie K: attribute values (references resolved) against the model
         match valuesOk g id.toList evs with
-        | some why => return .mismatch "gradient-svg" s!"{why}: {show svg}"
+        | some why => return .mismatch "gradient-svg" s!"{why}: {vis svg}"
         | none => return .ok
 
 def handleC30 (j : Json) : Except String Verdict := do
